@@ -268,6 +268,107 @@ func gen() ([]byte, error) {
 		}
 		rows = append(rows, fmt.Sprintf("(%s, [%s])", tx.CoqString(x.recv+"."+x.name), strings.Join(ts, "; ")))
 	}
-	b.WriteString("Definition c12_crit : list (string * list string) := [\n  " + strings.Join(rows, ";\n  ") + "\n].\n")
+	b.WriteString("Definition c12_crit : list (string * list string) := [\n  " + strings.Join(rows, ";\n  ") + "\n].\n\n")
+
+	// client/service.go Service.login: where the run id is presented, where the answer's error is checked,
+	// where the run id of the answer is remembered (in source order)
+	cliF, err := parser.ParseFile(fset, filepath.Join(tx.Repo, "client/service.go"), nil, 0)
+	if err != nil {
+		return nil, err
+	}
+	lg := findMethod(cliF, "Service", "login")
+	if lg == nil {
+		return nil, fmt.Errorf("client Service.login not found")
+	}
+	var ct []string
+	for _, st := range lg.Body.List {
+		switch x := st.(type) {
+		case *ast.AssignStmt:
+			if len(x.Lhs) == 1 && show(x.Lhs[0]) == "svr.runID" {
+				ct = append(ct, "AssignRunID:"+show(x.Rhs[0]))
+				continue
+			}
+			for _, r := range x.Rhs {
+				ast.Inspect(r, func(n ast.Node) bool {
+					if cl, ok := n.(*ast.CompositeLit); ok && show(cl.Type) == "msg.Login" {
+						for _, e := range cl.Elts {
+							if kv, ok := e.(*ast.KeyValueExpr); ok && show(kv.Key) == "RunID" {
+								ct = append(ct, "LoginCarries:"+show(kv.Value))
+							}
+						}
+					}
+					return true
+				})
+			}
+		case *ast.IfStmt:
+			if strings.Contains(show(x.Cond), "loginRespMsg.Error != \"\"") {
+				last := x.Body.List[len(x.Body.List)-1]
+				if _, ok := last.(*ast.ReturnStmt); ok {
+					ct = append(ct, "IfRespErrorReturn")
+				} else {
+					ct = append(ct, "Unknown:"+show(x))
+				}
+			}
+			ast.Inspect(x, func(n ast.Node) bool {
+				if as, ok := n.(*ast.AssignStmt); ok && len(as.Lhs) == 1 && show(as.Lhs[0]) == "svr.runID" {
+					ct = append(ct, "AssignRunIDNested:"+show(as.Rhs[0]))
+				}
+				return true
+			})
+		}
+	}
+	var cts []string
+	for _, t := range ct {
+		cts = append(cts, tx.CoqString(t))
+	}
+	b.WriteString("Definition c12_client_login : list string := [" + strings.Join(cts, "; ") + "].\n\n")
+
+	// pkg/config/v1/proxy.go ProxyBaseConfig.UnmarshalFromMsg: what the proxy's own name (GetName) is made of
+	cfgF, err := parser.ParseFile(fset, filepath.Join(tx.Repo, "pkg/config/v1/proxy.go"), nil, 0)
+	if err != nil {
+		return nil, err
+	}
+	um := findMethod(cfgF, "ProxyBaseConfig", "UnmarshalFromMsg")
+	if um == nil {
+		return nil, fmt.Errorf("ProxyBaseConfig.UnmarshalFromMsg not found")
+	}
+	nameRHS := "Unknown:no assignment to c.Name"
+	for _, st := range um.Body.List {
+		if as, ok := st.(*ast.AssignStmt); ok && len(as.Lhs) == 1 && show(as.Lhs[0]) == "c.Name" {
+			nameRHS = show(as.Rhs[0])
+		}
+	}
+	b.WriteString("Definition c12_name_assign : string := " + tx.CoqString(nameRHS) + ".\n\n")
+
+	// server/proxy/{stcp,sudp}.go Run: the calls made (the model: Run = VisitorManager.Listen and nothing else;
+	// in particular a failed Run closes nothing)
+	var vrows []string
+	for _, x := range []struct{ file, recv string }{{"server/proxy/stcp.go", "STCPProxy"}, {"server/proxy/sudp.go", "SUDPProxy"}} {
+		f, err := parser.ParseFile(fset, filepath.Join(tx.Repo, x.file), nil, 0)
+		if err != nil {
+			return nil, err
+		}
+		run := findMethod(f, x.recv, "Run")
+		if run == nil {
+			return nil, fmt.Errorf("%s.Run not found", x.recv)
+		}
+		var ts []string
+		ast.Inspect(run.Body, func(n ast.Node) bool {
+			switch y := n.(type) {
+			case *ast.DeferStmt:
+				ts = append(ts, tx.CoqString("Defer"))
+			case *ast.CallExpr:
+				if sel, ok := y.Fun.(*ast.SelectorExpr); ok {
+					switch sel.Sel.Name {
+					case "Listen", "Close", "CloseListener":
+						ts = append(ts, tx.CoqString(sel.Sel.Name))
+					}
+				}
+			}
+			return true
+		})
+		vrows = append(vrows, fmt.Sprintf("(%s, [%s])", tx.CoqString(x.recv+".Run"), strings.Join(ts, "; ")))
+	}
+	b.WriteString("Definition c12_vis_run : list (string * list string) := [\n  " + strings.Join(vrows, ";\n  ") + "\n].\n")
 	return b.Bytes(), nil
 }
